@@ -138,6 +138,8 @@ func (ch *channel) addInitDataAndUpdateTimescale(stream stream, init *mp4.InitSe
 	}
 	trak := moov.Traks[0]
 
+	ch.mu.Lock()
+	defer ch.mu.Unlock()
 	ch.startTime = 0 // 1970-01-01T00:00:00Z
 
 	creationTimeS := moov.Mvhd.CreationTimeS()
@@ -332,8 +334,8 @@ func (ch *channel) receivedSegData(rsd recSegData) {
 						return
 					}
 					dur := sdb.items[1].dur
-					ch.masterSegDuration = dur
 					ch.mu.Lock()
+					ch.masterSegDuration = dur
 					rd := ch.trDatas[name]
 					ch.masterTimescale = rd.timeScaleOut
 					segTime0 := int64(sdb.items[0].dts)
@@ -351,6 +353,7 @@ func (ch *channel) receivedSegData(rsd recSegData) {
 						log.Info("Initial segment time", "seqNr0", seqNr0, "segTime0", segTime0,
 							"seqNrShift", ch.masterSeqNrShift, "timeShift", ch.masterTimeShift)
 					}
+					ch.maxNrBufSegs = ch.timeShiftBufferDepthS*ch.masterTimescale/ch.masterSegDuration + 2
 					ch.mu.Unlock()
 					ch.deriveAndSetBitrates()
 					ch.deriveAndSetFrameRates(log)
@@ -358,7 +361,6 @@ func (ch *channel) receivedSegData(rsd recSegData) {
 					if err != nil {
 						log.Error("failed to write MPD", "err", err)
 					}
-					ch.maxNrBufSegs = ch.timeShiftBufferDepthS*ch.masterTimescale/ch.masterSegDuration + 2
 					windowSize := ch.maxNrBufSegs - 1
 					log.Info("Starting channel", "windowSize", windowSize, "seqNrShift", ch.masterSeqNrShift,
 						"timeShift", ch.masterTimeShift)
@@ -377,8 +379,8 @@ func (ch *channel) receivedSegData(rsd recSegData) {
 // addTrData adds track data and a segment.
 // If no previous video representation, this becomes the master track.
 // TODO. Handle audio-only case (no video representation).
+// The channel mutex must be held by the caller.
 func (ch *channel) addTrData(rd *trData) {
-	ch.mu.Lock()
 	firstVideoTrack := true
 	for _, rep := range ch.trDatas {
 		if rep.contentType == "video" {
@@ -392,7 +394,6 @@ func (ch *channel) addTrData(rd *trData) {
 	ch.trDatas[rd.name] = rd
 	ch.trIDs = append(ch.trIDs, rd.name)
 	sort.Strings(ch.trIDs)
-	ch.mu.Unlock()
 }
 
 func (ch *channel) getTrData(name string) (*trData, bool) {
@@ -477,14 +478,17 @@ func extractTextData(stsd *mp4.StsdBox, rep *m.RepresentationType) error {
 }
 
 func (ch *channel) updateAndWriteMPD(log *slog.Logger) error {
+	ch.mu.Lock()
 	for _, asSet := range ch.mpd.Periods[0].AdaptationSets {
 		stl := asSet.SegmentTemplate
 		dur := uint64(ch.masterSegDuration) * uint64((*stl.Timescale)) / uint64(ch.masterTimescale)
 		stl.Duration = m.Ptr(uint32(dur))
 		stl.StartNumber = m.Ptr(uint32(0))
 	}
+	manifest := m.Clone(ch.mpd)
+	ch.mu.Unlock()
 	mpdPath := filepath.Join(ch.dir, "manifest.mpd")
-	err := writeMPD(ch.mpd, mpdPath)
+	err := writeMPD(manifest, mpdPath)
 	if err != nil {
 		return fmt.Errorf("failed to write MPD: %w", err)
 	}
